@@ -58,7 +58,7 @@ def run(ctx):
 
 def _pitch(n):
     nm = n.attrs["name"]
-    return 12 * n.attrs["octave"] + nd.pitch_of_concrete(nm if isinstance(nm, str) else nm.concrete())
+    return nd.pitch_number(nm if isinstance(nm, str) else nm.concrete(), n.attrs["octave"])
 
 
 def _flatten(track):
